@@ -288,7 +288,9 @@ func intrStretch(in *interp, fr *frame, fn *ssa.Function, args []value) value {
 			comment := func(n string) *term {
 				v := p.newVar(fmt.Sprintf("%sslot%d.%s", tag, si, n), sStr)
 				p.assume(tCmp("<=", tLen(v), mkInt(6)))
-				p.assume(tInRe(v, "(re.* (re.diff "+reAnyByte+" (str.to_re \"\\u{a}\")))"))
+				// comment text: printable ASCII and tabs (multi-byte comment text is outside the bound:
+				// the byte-scanning code would have to decode symbolic UTF-8)
+				p.assume(tInRe(v, "(re.* (re.union (re.range \" \" \"~\") (str.to_re \"\\u{9}\")))"))
 				return v
 			}
 			var parts []*term
